@@ -67,10 +67,13 @@ Stored == /\ Consume /\ Ev.op = "Stored"
           \* the defining one (or that never had one) leaves it alone
           /\ LET latest == mutable /\ acq[Ev.c] # 0 /\ acq[Ev.c] = acqSeq
                  harmless == mutable /\ lastStore # 0 /\ Ev.v # 1 /\ acq[Ev.c] < lastStoreAcq
-             IN /\ lastStore' = (IF Ev.result = "" /\ ((storing <= 1 /\ ~overlap) \/ latest) THEN Ev.v
-                                ELSE IF Ev.result # "" /\ harmless THEN lastStore ELSE 0)
-                /\ lastStoreAcq' = (IF Ev.result = "" /\ ((storing <= 1 /\ ~overlap) \/ latest) THEN (IF Ev.v = 1 THEN 0 ELSE acq[Ev.c])
-                                   ELSE IF Ev.result # "" /\ harmless THEN lastStoreAcq ELSE 0)
+                 \* ... and so does a Store - failed or not - whose critical section came before the defining one: the lock serialises the
+                 \* sections, what it did to the entry was over before the defining Store began its own
+                 earlier == harmless \/ (mutable /\ lastStore # 0 /\ Ev.v # 1 /\ acq[Ev.c] # 0 /\ acq[Ev.c] < lastStoreAcq)
+             IN /\ lastStore' = (IF earlier THEN lastStore
+                                ELSE IF Ev.result = "" /\ ((storing <= 1 /\ ~overlap) \/ latest) THEN Ev.v ELSE 0)
+                /\ lastStoreAcq' = (IF earlier THEN lastStoreAcq
+                                   ELSE IF Ev.result = "" /\ ((storing <= 1 /\ ~overlap) \/ latest) THEN (IF Ev.v = 1 THEN 0 ELSE acq[Ev.c]) ELSE 0)
           /\ overlap' = (IF storing <= 1 THEN FALSE ELSE overlap)
           /\ UNCHANGED <<traceId, expect, viol, judged, mutable, acqSeq, acq>>
 FetchBegin == /\ Consume /\ Ev.op = "FetchBegin"
